@@ -1708,7 +1708,12 @@ class Tensor:
 
                 # Shape: [S0, S1, ... SN] -> (S0, S1, ... SN)
                 elif coord_style == "tuple":
-                    curr_shape += (shape,)
+                    # Flat like the coordinates (a rank that is already
+                    # flattened has a tuple as its shape)
+                    if isinstance(shape, tuple):
+                        curr_shape += shape
+                    else:
+                        curr_shape += (shape,)
                     if i == depth + levels:
                         new_shape.append(curr_shape)
 
